@@ -29,6 +29,14 @@ def main():
     except OSError:
         pass
 
+    expected_alarm = set()
+    try:
+        for ln in open(os.path.join(here, "refactors", "EXPECTED_ALARMS.txt")):
+            if ln.strip() and not ln.startswith("#"):
+                expected_alarm.add(ln.split()[0])
+    except OSError:
+        pass
+
     def one(item):
         kind, pf = item
         name = os.path.basename(os.path.dirname(pf))
@@ -47,6 +55,8 @@ def main():
                 if rc == 0 and name in expected:
                     return kind, name, "not reported (expected, see seeded/EXPECTED_MISSES.txt)"
                 return kind, name, "reported" if rc == 1 else ("MISSED" if rc == 0 else "checker error")
+            if rc == 1 and name in expected_alarm:
+                return kind, name, "alarm (expected, see refactors/EXPECTED_ALARMS.txt)"
             return kind, name, "silent" if rc == 0 else ("FALSE ALARM" if rc == 1 else "checker error")
         finally:
             shutil.rmtree(tmp, ignore_errors=True)
